@@ -10,7 +10,7 @@ def _gen_minmax(rng, size):
              2**32, 2**63 - 1, 2**63, 2**64 - 1]
     def pick():
         e = rng.choice(edges) * rng.choice([1, 1, -1])
-        return e + rng.choice([0, 0.5, -0.5, 0.25, -0.25, 0.49, -0.49])
+        return float(e + rng.choice([0, 0.5, -0.5, 0.25, -0.25, 0.49, -0.49]))
     a, b = pick(), pick()
     return dict(x_minmax=(min(a, b), max(a, b)))
 
@@ -21,10 +21,14 @@ contract(
     native=dict(gen=_gen_minmax, weight=3),
     params=dict(x_minmax='Tuple[Real,Real]'),
     returns='Int',
-    requires=["x_minmax[0] <= x_minmax[1]",
-              # S-6 (known finding): beyond the uint64 / int64 range the function falls through to `int`
-              "-9223372036854775808 <= rnd(x_minmax[0])", "rnd(x_minmax[1]) <= 18446744073709551615",
-              "implies(rnd(x_minmax[0]) < 0, rnd(x_minmax[1]) <= 9223372036854775807)"],
+    requires=["x_minmax[0] <= x_minmax[1]"],
+    known_findings=[dict(
+        id='S-6',
+        # beyond the uint64 / int64 range the function falls through to `int`
+        exclude="rnd(x_minmax[0]) < -9223372036854775808 or rnd(x_minmax[1]) > 18446744073709551615 "
+                "or (rnd(x_minmax[0]) < 0 and rnd(x_minmax[1]) > 9223372036854775807)",
+        witness=dict(x_minmax=(0.0, 1e20)),
+        what='choose_int_dtype((0, 1e20)) returns int: no integer type wide enough')],
     ensures=[
         # the returned type holds every rounded value ...
         "iinfo_min(result) <= rnd(x_minmax[0])", "rnd(x_minmax[1]) <= iinfo_max(result)",
